@@ -272,7 +272,9 @@ def state(con, ordered=True):
     out = {}
     for t in S.TABLES:
         rows = con.execute("select * from %s order by rowid" % t).fetchall()
-        rows = [tuple((type(v).__name__, v) for v in row) for row in rows]
+        # REAL values up to the sign of a zero and the last digits (re-association of * and + in IEEE arithmetic)
+        rows = [tuple((type(v).__name__, (0.0 if v == 0 else float("%.11g" % v)) if isinstance(v, float) else v) for v in row)
+                for row in rows]
         out[t] = rows
     return out
 
